@@ -75,6 +75,11 @@ impl EffectorStream for DefaultEffectStream {
     }
 
     fn push_effect(&mut self, eft: EffectKind) -> bool {
+        // the verdict is final once completion has been signalled
+        if self.done {
+            return true;
+        }
+
         if self.expr == "some(where (p_eft == allow))" {
             if eft == EffectKind::Allow {
                 self.done = true;
